@@ -1,9 +1,50 @@
 import Nstd.Json.LemmasStrip
+import Nstd.Json.LemmasParse
 /-
   Property C15 (JSON: total, safe, round trip; stripComments removes exactly the comments).
   Only the property theorems and their non-vacuity examples live here.
 -/
 namespace Nstd.Json
+
+/-! ## parse: total, safe, error position inside the text
+
+  `buf` is the memory handed to `Json::parse`; the hypothesis `0 ∈ buf` says it is NUL-terminated
+  somewhere (for the exactly sized buffer `t ++ [0]` of a NUL-free `t` the terminator is the last
+  byte).  `.oob` = a read behind the end of `buf`; `.nofuel` = the recursion/loop budget
+  `parseFuel buf = 2·|buf| + 4` did not suffice. -/
+
+/-- `Json::parse` terminates on every NUL-terminated buffer: the budget always suffices
+    (no bound on size or nesting depth). -/
+theorem parse_total (buf : List Byte) (h : 0 ∈ buf) : parse buf ≠ .nofuel := by
+  have := parse_safe buf h
+  intro e; rw [e] at this; exact this
+
+/-- `Json::parse` never reads behind the end of a buffer that contains a NUL; applied to
+    `t ++ [0]`: it reads nothing beyond the terminator. -/
+theorem parse_no_oob (buf : List Byte) (h : 0 ∈ buf) : parse buf ≠ .oob := by
+  have := parse_safe buf h
+  intro e; rw [e] at this; exact this
+
+/-- a reported syntax error carries the line and column of an offset inside the text
+    (`off ≤ strlen`, i.e. at a byte of the text or at its terminator) -/
+theorem error_pos_inside (buf : List Byte) (h : 0 ∈ buf) (l c : Nat) (he : parse buf = .err l c) :
+    ∃ off, off ≤ (cstr buf).length ∧ l = lineOf (cstr buf) off ∧ c = colOf (cstr buf) off := by
+  have := parse_safe buf h
+  rw [he] at this; exact this
+
+/-- hence 1 ≤ line ≤ number of lines, and 1 ≤ column ≤ length of that line + 1 -/
+theorem error_pos_bounds (buf : List Byte) (h : 0 ∈ buf) (l c : Nat) (he : parse buf = .err l c) :
+    1 ≤ l ∧ l ≤ lineCount (cstr buf) ∧ 1 ≤ c ∧
+      ∃ off, off ≤ (cstr buf).length ∧ l = lineOf (cstr buf) off ∧ c ≤ lineLenAt (cstr buf) off + 1 := by
+  obtain ⟨off, ho, hl, hc⟩ := error_pos_inside buf h l c he
+  refine ⟨by rw [hl]; unfold lineOf; omega, by rw [hl]; exact lineOf_le_lineCount _ _,
+    by rw [hc]; unfold colOf; omega, off, ho, hl, by rw [hc]; unfold colOf lineLenAt; omega⟩
+
+-- non-vacuity: the repaired input `"\` + NUL (D21) and an error on the second line
+example : parse [34, 92, 0] = .err 1 3 := by rfl
+example : parse [91, 49, 44, 10, 32, 120, 0] = .err 2 2 := by rfl
+example : lineOf [91, 49, 44, 10, 32, 120] 5 = 2 ∧ colOf [91, 49, 44, 10, 32, 120] 5 = 2 := by decide
+example : ∃ v, parse [91, 49, 44, 34, 97, 34, 93, 0] = .ok v := ⟨_, rfl⟩
 
 /-! ## stripComments -/
 
